@@ -520,6 +520,20 @@ def srvLine (st : SrvSt) (ts : List Tok) : SrvSt :=
           { st with srv := srv, rs := { st.rs with model := srv.rib, hookFold := if tokStr h == "hook=1" then some [] else none } }
         | _, _ => bad st
       | _ => bad st
+    else if c = "srv.addni" then
+      -- Server.AddNetworkInstance on the running server: a RIB step (`Rib.addNI`), nothing else
+      let st := bump st
+      match beforeArrow args, afterArrow args with
+      | [n], [ok] =>
+        match strOf n with
+        | some n =>
+          let st := { st with prevEnts := st.rs.implEnts, prevPend := st.rs.implPend }
+          let (m', fresh) := st.rs.model.addNI n
+          let st := { st with rs := { st.rs with model := m' }, srv := { st.srv with rib := m' } }.covr "addni"
+          if st.rs.diverged || fresh == (tokStr ok == "1") then st
+          else st.diff "addni" s!"model={fresh} impl={tokStr ok}"
+        | none => bad st
+      | _, _ => bad st
     else if c = "srv.connect" then
       let st := bump st
       match args with
@@ -627,6 +641,7 @@ def srvLine (st : SrvSt) (ts : List Tok) : SrvSt :=
         else
           let m := (strOf msg).getD ""
           let mon := if (m.splitOn "election id at quiescence").length > 1 || (m.splitOn "primary at quiescence").length > 1 || (m.splitOn "was told").length > 1 then "c05" else "c11"
+          let st := if (m.splitOn "not a state the table ever had").length > 1 then st.monfail "c07" m else st
           (st.monfail mon m).monfail "c11" m
       | _ => bad st
     else if c = "hang" then
